@@ -339,6 +339,47 @@ func runGenerated(r *rng.R, idx int) *Result {
 	rots, suis := 0, 0
 	readersOn := r.Range(1, nReaders)
 	for t := 0; t < ticks && !e.hang; t++ {
+		// stale-snapshot gadget (window of 5d51c58): a fetch creates its provider on the writable fraction, THEN a
+		// bulk carrying one of the requested IDs is registered and positioned, THEN the fetch continues
+		if r.Chance(1, 7) {
+			ri := r.Intn(readersOn)
+			rd := e.rs[ri]
+			var idle []int
+			for w := range e.ws {
+				if e.ws[w].state == 0 && e.ws[w].cur < len(in.Bulks[w]) {
+					idle = append(idle, w)
+				}
+			}
+			if !rd.inop && len(idle) > 0 {
+				do(Label{K: "Snap", T: ri})
+				j := len(rd.snap) - 1
+				w := rng.Pick(r, idle)
+				next := in.Bulks[w][e.ws[w].cur]
+				ids := [][2]uint64{{next[r.Intn(len(next))].MID, next[r.Intn(len(next))].RID}}
+				ids[0][1] = 0
+				for _, d := range next {
+					if d.MID == ids[0][0] {
+						ids[0][1] = d.RID
+						break
+					}
+				}
+				if len(seen) > 0 {
+					ids = append(ids, rng.Pick(r, seen))
+				}
+				ids = dedupIDs(ids)
+				do(Label{K: "FB", T: ri, J: j, IDs: ids})
+				if rd.inop { // parked at fetch.start on the active provider
+					for k := 0; k < 4 && e.Enabled(Label{K: "W", T: w}) && !e.hang; k++ {
+						do(Label{K: "W", T: w})
+					}
+					if r.Chance(2, 3) {
+						do(Label{K: "R", T: ri})
+					}
+				}
+				e.counts = append(e.counts, "gadget:stale-fetch")
+				continue
+			}
+		}
 		var cs []cand
 		for w := range e.ws {
 			if e.Enabled(Label{K: "W", T: w}) {
